@@ -14,6 +14,11 @@ import "sort"
 
 type Ref struct {
 	Ambiguous bool
+	// ByEquals: hash-key equality IS Equals (the statement of property C09: "a Hash is a map keyed by value
+	// equality"; px.ToKey must respect Equals).  The reference then takes the side of Equals wherever the two
+	// notions could differ (a hash entry against its two element array, hashes with the same entries in another
+	// order, at any depth) and no history is flagged Ambiguous.
+	ByEquals bool
 }
 
 // Veq mirrors Equals of the value kinds of the universe.
@@ -55,7 +60,8 @@ func Veq(a, b *PV) bool {
 		for _, e := range a.L {
 			found := false
 			for _, f := range b.L {
-				if e.L[0].Equal(f.L[0]) {
+				// the key is looked up through the index of the other hash: by its hash key, i.e. (C07) by Equals
+				if Veq(e.L[0], f.L[0]) {
 					found = Veq(e, f)
 					break
 				}
@@ -72,7 +78,7 @@ func Veq(a, b *PV) bool {
 // eq is the equality meant by `Equals` calls; flags the history when key equality would answer differently
 func (r *Ref) eq(a, b *PV) bool {
 	v := Veq(a, b)
-	if v != a.Equal(b) {
+	if !r.ByEquals && v != a.Equal(b) {
 		r.Ambiguous = true
 	}
 	return v
@@ -80,6 +86,9 @@ func (r *Ref) eq(a, b *PV) bool {
 
 // keq is hash-key equality; flags the history when Equals would answer differently
 func (r *Ref) keq(a, b *PV) bool {
+	if r.ByEquals {
+		return Veq(a, b)
+	}
 	k := a.Equal(b)
 	if k != Veq(a, b) {
 		r.Ambiguous = true
